@@ -23,6 +23,22 @@ add("C16", "runtime monitor: real apply_boundary_conditions/check_bounds vs exac
     "Each folded value is compared with the exact rational fold of the input double (error <= 2^-53), with idempotence, untouched-coordinate bit-identity, 1-D/2-D agreement and check_bounds equivalence; ~2e5 values quick, ~5e6 thorough plus hypothesis floats(). Exploration over a finite sample of the doubles, biased to the places where folds break (integers+-ulp, 2^63, huge magnitudes).",
     "Trusted: python fractions; the catalogue/generators decide reach.")
 
+add("C06", "runtime monitor with injected randomness: systematic comb driven at every breakpoint +-1ulp / cell midpoint of its u0-partition via an np.random interposer, validated by an independent comb model; pooled multinomial counts",
+    "For each generated (n,w) the whole u0 interval is covered through its finite partition (every breakpoint +-1 ulp, every midpoint, 0, 1-ulp), so length/range/monotonicity/floor-ceil copies/zero-weight clauses are decided for every offset of that (n,w) and unbiasedness by exact integration over cells; (n,w) themselves are sampled (400 quick / 1e4 thorough). Multinomial clause statistical (two-stage z>5.5).",
+    "Trusted: long-double cumulative sums of the reference comb; np.random.choice semantics for the multinomial scheme.")
+add("C15", "runtime contract monitors on GaussianMixture / HierarchicalGaussianMixture over generated weighted data sets; metamorphic weight-replication pairs with fixed EM step count",
+    "Algebraic invariants (weights, PSD, bounding box, label ranges, cap, min_points, predict ranges) asserted on every fit of 300 (quick) / 5000 (thorough) generated data sets; replication equivalence on a third of them. Exploration over generator families.",
+    "Trusted: numpy eigvalsh; mean-in-box judged for component weight > 1e-3.")
+add("C17", "history + executable reference model: random StateManager operation sequences vs dict-of-copies model with a hostile caller overwriting every returned array; sampler-level twin runs compared bitwise",
+    "After every operation the manager's public answers are compared with the reference model while every array handed to the caller is overwritten; 300 (quick) / 5000 (thorough) sequences of 40 operations plus hostile-vs-untouched twin sampler runs. Any aliasing that can influence a later answer, or a commit that alters history, diverges from the model.",
+    "Trusted: reference model (30 lines); donated inputs (copy=False, from_dict) are not judged.")
+add("C19", "runtime contract monitors on fit_mvstud / ModeStatistics: well-posedness, metamorphic equivariance pairs, recovery on large multivariate-t samples",
+    "Well-posedness and three equivariance pairs on 300 (quick) / 5000 (thorough) data sets, dof-finiteness at the kernel boundary, recovery on 18-72 large t samples. The recovery clause is a KNOWN FINDING (nu is always inf).",
+    "Trusted: rtol 1e-4 equivariance band; recovery bands nu +-25%, scale +-10%.")
+add("C20", "runtime contract monitors on effective_sample_size / compute_ess / trim_weights / volume_variation with long-double references and conditioning-aware affine pairs",
+    "ESS bounds/scale/uniform, exact threshold-set trimming contract and volume-metric invariances asserted on 3000 (quick) / 1e5 (thorough) generated weight vectors (600-decade range, zeros, ties).",
+    "Trusted: long-double ESS; affine clause judged only when 1000*eps*kappa <= 1e-2.")
+
 NOT_YET = {}
 
 
